@@ -245,6 +245,14 @@ impl World {
 				self.do_restart(n, 0);
 			}
 		}
+		// T6: the application only force-closes once the channel's monitor is durable (chain/mod.rs:
+		// force_close_broadcasting_latest_txn on a monitor that only exists in memory "may result
+		// in loss of funds")
+		for n in 0..n_nodes {
+			self.complete_all_monitor_writes(n);
+			self.do_persist_mgr(n);
+			self.complete_all_monitor_writes(n);
+		}
 		// close every channel still open, alternating the closing side
 		for ci in 0..self.chans.len() {
 			let closer = if ci % 2 == 0 { self.chans[ci].a } else { self.chans[ci].b };
